@@ -40,34 +40,64 @@ class Budget(Exception):
 class Noisy(float):
     """A float whose last bits depend on the order of operations (a loop
     variable the VM reaches by repeated addition, a colour-space conversion).
-    Arithmetic keeps the mark; decisions that hinge on such a value within
+    Arithmetic keeps the mark and the magnitude (`scale`) of the numbers the
+    value was derived from; decisions that hinge on such a value within
     rounding noise are not asserted."""
 
-    def _wrap(self, value):
-        return Noisy(value) if isinstance(value, float) else value
+    def __new__(cls, value, scale=None):
+        self = float.__new__(cls, value)
+        self.scale = max(abs(float(value)), scale or 0.0)
+        return self
 
-    def __add__(self, o): return self._wrap(float.__add__(self, o))
-    def __radd__(self, o): return self._wrap(float.__radd__(self, o))
-    def __sub__(self, o): return self._wrap(float.__sub__(self, o))
-    def __rsub__(self, o): return self._wrap(float.__rsub__(self, o))
-    def __mul__(self, o): return self._wrap(float.__mul__(self, o))
-    def __rmul__(self, o): return self._wrap(float.__rmul__(self, o))
-    def __truediv__(self, o): return self._wrap(float.__truediv__(self, o))
+    def _wrap(self, value, other=0):
+        if not isinstance(value, float):
+            return value
+        scale = self.scale
+        if isinstance(other, Noisy):
+            scale = max(scale, other.scale)
+        elif isinstance(other, (int, float)):
+            scale = max(scale, abs(other))
+        return Noisy(value, scale)
+
+    def __add__(self, o): return self._wrap(float.__add__(self, o), o)
+    def __radd__(self, o): return self._wrap(float.__radd__(self, o), o)
+    def __sub__(self, o): return self._wrap(float.__sub__(self, o), o)
+    def __rsub__(self, o): return self._wrap(float.__rsub__(self, o), o)
+    def __mul__(self, o):
+        return self._scaled(float.__mul__(self, o), o)
+    def __rmul__(self, o):
+        return self._scaled(float.__rmul__(self, o), o)
+    def __truediv__(self, o):
+        value = float.__truediv__(self, o)
+        return Noisy(value, self.scale / abs(o) if o else None)
     def __rtruediv__(self, o): return self._wrap(float.__rtruediv__(self, o))
-    def __mod__(self, o): return self._wrap(float.__mod__(self, o))
-    def __rmod__(self, o): return self._wrap(float.__rmod__(self, o))
+    def __mod__(self, o): return self._wrap(float.__mod__(self, o), o)
+    def __rmod__(self, o): return self._wrap(float.__rmod__(self, o), o)
     def __pow__(self, o): return self._wrap(float.__pow__(self, o))
     def __rpow__(self, o): return self._wrap(float.__rpow__(self, o))
-    def __neg__(self): return Noisy(float.__neg__(self))
+    def __neg__(self): return Noisy(float.__neg__(self), self.scale)
     def __repr__(self): return float.__repr__(self)
     __str__ = __repr__
+
+    def _scaled(self, value, factor):
+        if not isinstance(value, float):
+            return value
+        other = factor.scale if isinstance(factor, Noisy) else abs(factor)
+        return Noisy(value, self.scale * max(other, 0.0))
+
+
+def _scale_of(*values):
+    return max([1.0] + [v.scale if isinstance(v, Noisy) else abs(v)
+                        for v in values
+                        if isinstance(v, (int, float))
+                        and not isinstance(v, bool)])
 
 
 def _noisy(a, b=0):
     """True when a comparison of a and b could be decided by rounding noise."""
     if not (isinstance(a, Noisy) or isinstance(b, Noisy)):
         return False
-    return abs(a - b) <= 1e-9 * max(1.0, abs(a), abs(b))
+    return abs(a - b) <= 1e-9 * _scale_of(a, b)
 
 
 def _truth(value):
@@ -77,8 +107,7 @@ def _truth(value):
 
 
 def _near_integer(x):
-    return isinstance(x, Noisy) and abs(x - round(x)) <= 1e-9 * max(
-        1.0, abs(x))
+    return isinstance(x, Noisy) and abs(x - round(x)) <= 1e-9 * _scale_of(x)
 
 
 def _check_num(value):
@@ -130,6 +159,8 @@ def _ceil(x):
 
 @_builtin
 def _sqrt(x):
+    if _noisy(x, 0):
+        raise Undefined('sqrt of a float within rounding noise of 0')
     if x < 0:
         raise Undefined('sqrt of a negative number')
     return math.sqrt(x)
@@ -154,6 +185,8 @@ def _tan(x):
 
 @_builtin
 def _asin(x):
+    if _noisy(x, 1) or _noisy(x, -1):
+        raise Undefined('asin at the edge of its domain')
     if not -1 <= x <= 1:
         raise Undefined('asin domain')
     return math.degrees(math.asin(x))
@@ -161,6 +194,8 @@ def _asin(x):
 
 @_builtin
 def _acos(x):
+    if _noisy(x, 1) or _noisy(x, -1):
+        raise Undefined('acos at the edge of its domain')
     if not -1 <= x <= 1:
         raise Undefined('acos domain')
     return math.degrees(math.acos(x))
@@ -173,6 +208,8 @@ def _atan(x):
 
 @_builtin
 def _cycle(x):
+    if isinstance(x, Noisy) and _noisy(x, 360 * round(x / 360)):
+        raise Undefined('cycle of a float within rounding noise of a turn')
     return x % 360 if not 0 <= x < 360 else x
 
 
@@ -462,6 +499,8 @@ class Interp:
             self.trace.append(('wait_until', value))
         else:
             _check_num(value)
+            if _noisy(value, 0):
+                raise Undefined('delay within rounding noise of zero')
             if value > 0:
                 self.trace.append(
                     ('delay', value / 1000.0 if self.mode == 'raw' else value))
@@ -750,6 +789,8 @@ class Interp:
             self.note('interp-count:{}'.format(min(count, 2)))
             first = _check_num(self.eval(spec[3]))
             last = _check_num(self.eval(spec[4]))
+            if count == 0:
+                self.assign(spec[2], first)     # exists, value unspecified
             for value in _interpolate(first, last, count):
                 self.assign(spec[2], value)
                 if not self.body_once(body):
@@ -759,6 +800,8 @@ class Interp:
             count = self.count_value(spec[1])
             self.note('cycle-count:{}'.format(min(count, 2)))
             start = 0 if spec[3] is None else _check_num(self.eval(spec[3]))
+            if count == 0:
+                self.assign(spec[2], start)     # exists, value unspecified
             for value in self.cycle_values(start, count):
                 self.assign(spec[2], value)
                 if not self.body_once(body):
@@ -796,6 +839,9 @@ class Interp:
                 start = 0 if with_spec[2] is None else _check_num(
                     self.eval(with_spec[2]))
                 values = self.cycle_values(start, count)
+        if with_spec is not None and count == 0:
+            self.assign(with_spec[1], first if with_spec[0] == 'range'
+                        else start)             # exists, value unspecified
         for index, name in enumerate(names):
             self.assign(light_var, name)
             if values is not None:
@@ -823,7 +869,8 @@ def _steps(first, step, count):
     values = [first + k * step for k in range(count)]
     if exact and not isinstance(first, Noisy) and not isinstance(step, Noisy):
         return values
-    return [values[0]] + [Noisy(v) for v in values[1:]]
+    scale = max(abs(first), abs(first + step * count), abs(step))
+    return [values[0]] + [Noisy(v, scale) for v in values[1:]]
 
 
 def _interpolate(first, last, count):
@@ -891,7 +938,7 @@ def _num_equal(want, got):
         return want is got or (want == got and isinstance(want, bool)
                                and isinstance(got, bool))
     if isinstance(want, (int, float)) and isinstance(got, (int, float)):
-        return abs(want - got) <= 1e-9 * max(1.0, abs(want), abs(got))
+        return abs(want - got) <= 1e-9 * max(_scale_of(want), abs(got))
     return want == got and type(want) is type(got)
 
 
